@@ -483,15 +483,17 @@ def case_term(case, obs):
     if ev is None or obs["errors"]:
         # the run left the model's alphabet: an event no state enables
         return f"({cl}, [(Deliver, ONone)], @nil (comp * name * list sample))"
-    evs = "[" + ";\n    ".join(f"({e}, {o})" for e, o in ev) + "]"
+    evs = "[" + ";\n    ".join(f"({e}, {o})" for e, o in ev) + "]" if ev else "@nil (event * observed)"
     tab = key_table(case, obs)
     st = []
     for key, got in sorted(obs["streams"].items()):
         n = tab[key]
         if any(not isinstance(v, int) for _, v in got):
             return f"({cl}, [(Deliver, ONone)], @nil (comp * name * list sample))"
-        st.append(f"({cZ(n[0])}, {c_name(n)}, [{'; '.join(f'({cZ(t)}, {cZ(v)})' for t, v in got)}])")
-    return f"({cl}, {evs}, [{'; '.join(st)}])"
+        smp = "[" + "; ".join(f"({cZ(t)}, {cZ(v)})" for t, v in got) + "]" if got else "@nil sample"
+        st.append(f"({cZ(n[0])}, {c_name(n)}, {smp})")
+    sts = "[" + "; ".join(st) + "]" if st else "@nil (comp * name * list sample)"
+    return f"({cl}, {evs}, {sts})"
 
 
 def show_term(case, obs):
